@@ -6,7 +6,7 @@
 (* reads) are judged. Implementation-shaped: the priority chain of the         *)
 (* controller's read_io / write_io; MC_Ports checks that on every singleton    *)
 (* port the chain picks that device, for all 65536 ports and configurations.   *)
-EXTENDS Input, Ula
+EXTENDS Input, Ula, Screen
 
 \* cfg = [m |-> 48|128, kempston, mouse : BOOLEAN, ext |-> set of <<mask, value>> claims]
 ExtClaims(cfg, p) == \E c \in cfg.ext : (p & c[1]) = c[2]
@@ -61,8 +61,6 @@ FirstFetch(m) == T0(m) + 1            \* first picture pixel at 14336 / 14362
 FetchGroups(m, t0, t1) ==
     {<<y, g>> \in (0..191) \X (0..15) :
         LET start == FirstFetch(m) + y * Line(m) + g * 8 IN start + 8 > t0 - 8 /\ start <= t1 + 8}
-BitmapOff(y, col) == ((y \div 64) * 2048) + ((y % 8) * 256) + (((y \div 8) % 8) * 32) + col
-AttrOff(y, col) == 6144 + (y \div 8) * 32 + col
 FloatAllowed(m, t0, t1, scr) ==       \* scr: sequence of 6912 bytes of the visible screen bank
     {255} \cup UNION {{scr[BitmapOff(yg[1], 2 * yg[2]) + 1], scr[AttrOff(yg[1], 2 * yg[2]) + 1],
                        scr[BitmapOff(yg[1], 2 * yg[2] + 1) + 1], scr[AttrOff(yg[1], 2 * yg[2] + 1) + 1]}
